@@ -67,7 +67,8 @@ AppendSub(parent, sub, first, rest) ==
                    ln == s1.lines[i] IN
                IF ln.b THEN TL(pre \o WithTag([k \in 1..Len(ln.c) |-> C2(ln.c[k])], tag))
                ELSE TL(pre \o ln.c)]
-  IN AddLines([p1 EXCEPT !.err = @ \/ s1.err], pl)
+      merged == AddLines([p1 EXCEPT !.err = @ \/ s1.err], pl)
+  IN [merged EXCEPT !.pend = @ \o s1.pend]      \* markers after the sub-renderer's last line stay pending
 SubEmpty(r) == r.lines = <<>> /\ (IsNull(r.wb) \/ WBEmpty(r.wb))     \* SubRenderer::empty
 
 (* ---------------- border algebra (BorderHoriz) ---------------- *)
@@ -123,7 +124,9 @@ AppendColumns(parent, subs, cf) ==
                        \o (IF k < n THEN <<sep>> ELSE <<>>),
                    <<>>, [k \in 1..n |-> k])
       body == [i \in 1..H |-> TL(row(i))]
-      base == IF prevIsBorder THEN [p1 EXCEPT !.lines[Len(p1.lines)].c = prev2] ELSE p1
+      cellFrags == Concat([k \in 1..n |-> fl[k].pend])     \* markers of cells without a line to carry them
+      base0 == IF prevIsBorder THEN [p1 EXCEPT !.lines[Len(p1.lines)].c = prev2] ELSE p1
+      base == [base0 EXCEPT !.pend = @ \o cellFrags]
       withBody == AddLines(base, body)
       fin == IF cf.borders THEN AddLine(withBody, BL(next2, tag)) ELSE withBody
   IN [fin EXCEPT !.err = @ \/ anyerr, !.panic = bad]
@@ -180,9 +183,13 @@ IntoCells(row, cw, vert) ==
              LET w == IF vert THEN (IF a.colno + 1 <= Len(cw) THEN cw[a.colno + 1] ELSE -1)
                       ELSE SumSeq(SubSeq(cw, a.colno + 1, a.colno + cell.colspan)) IN
              [colno |-> a.colno + cell.colspan,
-              out |-> IF w > 0 THEN Append(a.out, [w |-> IF vert THEN w ELSE w + cell.colspan - 1, cell |-> cell]) ELSE a.out,
+              out |-> IF w > 0 THEN Append(a.out, [w |-> IF vert THEN w ELSE w + cell.colspan - 1,
+                                                   cell |-> [cell EXCEPT !.c = a.carry \o @]])
+                      ELSE a.out,
+              \* fragment markers of a cell that is not drawn move to the next one that is
+              carry |-> IF w > 0 THEN <<>> ELSE a.carry \o SelectSeq(cell.c, LAMBDA x : x.kind = "FragStart"),
               oob |-> a.oob \/ w < 0],
-           [colno |-> 0, out |-> <<>>, oob |-> FALSE], row.c)
+           [colno |-> 0, out |-> <<>>, carry |-> <<>>, oob |-> FALSE], row.c)
 
 (* ---------------- the step machine ---------------- *)
 Top(st) == Last(st.stk)
